@@ -10,6 +10,7 @@ package overlay
 //@   safety off
 //@   opt frame=off
 //@   requires t != nil && t.cachedConnections != nil
+//@   requires cached-entries-are-existing-connections: forall k string {t.cachedConnections.m[k]} :: t.cachedConnections.keys[k] ==> (t.cachedConnections.m[k] != nil && allocated(t.cachedConnections.m[k]))
 //@   ghost locked bool = false
 //@   ghost rechecked bool = false
 //@   ghost lastLoaded *nodeConnection = nil
@@ -26,7 +27,7 @@ package overlay
 //@   at call Store#*: assert a-new-connection-is-cached-only-if-the-peer-caches-the-same-one-and-none-is-cached: locked && rechecked && !lastOk && callarg1 == qKey && callarg2 == fresh && negotiation.CacheState == protocol.Connection_FRESH && ((negotiation.CacheDirection == protocol.Connection_INCOMING && dir != directionIncoming) || (negotiation.CacheDirection == protocol.Connection_OUTGOING && dir == directionIncoming))
 //@   at call Store#*: ghost stored := true
 //@   ensures local-a-reused-connection-is-the-cached-entry-and-stays-open: reused ==> (err == nil && conn == lastLoaded && lastOk && conn != fresh && !stored)
-//@   ensures local-a-new-connection-is-returned-only-after-it-was-cached: (err == nil && !reused) ==> (conn == fresh && stored && !closedFresh)
+//@   ensures local-a-new-connection-is-returned-only-after-it-was-cached: (!reused && conn != nil) ==> (err == nil && conn == fresh && stored && !closedFresh)
 //@   ensures local-errors-return-nothing-and-cache-nothing: err != nil ==> (conn == nil && !reused && !stored)
 
 //@ func (t *QUIC) reapPeer(q *quic.Conn, peer *protocol.Node)
